@@ -69,6 +69,7 @@ type suSub struct {
 	mu      sync.Mutex
 	out     []string // rendered (key, resp) pairs: "key\x00resp", or "sync"
 	gate    chan struct{} // nil = open
+	stepc   chan struct{} // releases exactly one gated Send
 	gated   bool          // a gate was shut since the last drain
 	done    bool
 	err     error
@@ -115,6 +116,7 @@ func (st *suStream) Send(r *pb.SubscribeResponse) error {
 	if g != nil {
 		select {
 		case <-g:
+		case <-st.s.stepc:
 		case <-st.s.ctx.Done():
 			return st.s.ctx.Err()
 		}
@@ -435,7 +437,7 @@ func (c *suComp) Run(args []string) string {
 			}
 			defer func() { subscribe.VerifHook = nil }()
 		}
-		s := &suSub{id: id, reqs: make(chan *pb.SubscribeRequest, 4), view: map[string]string{}}
+		s := &suSub{id: id, reqs: make(chan *pb.SubscribeRequest, 4), view: map[string]string{}, stepc: make(chan struct{})}
 		caller := &suCaller{allowed: map[string]bool{}}
 		switch {
 		case args[2] == "-":
@@ -519,6 +521,15 @@ func (c *suComp) Run(args []string) string {
 				s.gate = make(chan struct{})
 			}
 			s.gated = true
+		} else if args[2] == "step" {
+			// let exactly one held Send through; the gate stays shut (every goroutine is parked
+			// after the previous op, so a held Send is already waiting in its select)
+			if s.gate != nil {
+				select {
+				case s.stepc <- struct{}{}:
+				default:
+				}
+			}
 		} else if s.gate != nil {
 			close(s.gate)
 			s.gate = nil
@@ -828,6 +839,17 @@ func (c *suComp) Gen(r *rand.Rand, tier string) []string {
 		case x < 39 && len(s.ids) > 0 && genProfile == "c08":
 			id := s.ids[r.Intn(len(s.ids))]
 			if s.gate[id] {
+				if r.Intn(5) < 2 {
+					// one response at a time: the queue stays non-empty between sends
+					for k := 1 + r.Intn(3); k > 0; k-- {
+						s.emit("gate %s step", encStr(id))
+						if r.Intn(2) == 0 {
+							g.step()
+							s.flushCA()
+						}
+					}
+					break
+				}
 				if r.Intn(4) == 0 {
 					s.emit("expire %s", encStr(id))
 				}
